@@ -1798,6 +1798,10 @@ fn build_bp_index(
         );
     }
 
+    // Only the words that hold bits below `len` take part, as in
+    // `BitVec::with_config`: storage longer than `len` needs (a surplus word)
+    // must not be counted or treated as the partial word (#188).
+    let words = &words[..len.div_ceil(64).min(words.len())];
     let num_words = words.len();
     let num_l1 = num_words.div_ceil(FACTOR_L1);
     let num_l2 = num_l1.div_ceil(FACTOR_L2);
@@ -2001,10 +2005,16 @@ fn build_bp_index(
 /// Clear bits at or above `len` in the final word (same canonicalization as
 /// `BitVec::with_config`), so stray 1-bits cannot skew counting (#188).
 fn mask_final_word_in_place(words: &mut [u64], len: usize) {
+    // The partial word is the one holding bit `len - 1`, which is the last
+    // word only when the storage is exactly as long as `len` needs.
+    let used_words = len.div_ceil(64);
     if len % 64 != 0 {
-        if let Some(last) = words.last_mut() {
-            *last &= (1u64 << (len % 64)) - 1;
+        if let Some(partial) = words.get_mut(used_words - 1) {
+            *partial &= (1u64 << (len % 64)) - 1;
         }
+    }
+    for word in words.iter_mut().skip(used_words) {
+        *word = 0;
     }
 }
 
